@@ -58,6 +58,15 @@ def run(ctx):
             for inj in ("copy_file_range:error=EIO:when=2", "openat:error=EACCES:when=3", "ftruncate:error=ENOSPC:when=1", "fchmod:error=EPERM:when=2"):
                 jobs.append((sc, drv, "rec", {"workers": 2, "block_size": 1000, "drain_timeout_s": 30}, None, inj, False))
                 jobs.append((sc, drv, "chan", {"workers": 2, "block_size": 1000, "drain_timeout_s": 30}, None, inj, False))
+    # a failure in ANY block, early or late, of a single file and of the last file of a tree
+    one_file = scen("onefile", {"only": 8000})
+    last_file = scen("lastfile", {"a": 10, "b": 20, "zz-last": 6000})
+    for sc in (one_file, last_file):
+        for drv in ("parfile", "parblock"):
+            for when in ((1, 3, 5, 6, 7, 8) if quick else range(1, 10)):
+                for upd in ("rec", "chan"):
+                    jobs.append((sc, drv, upd, {"workers": [1, 2, 4][when % 3], "block_size": 1000, "drain_timeout_s": 30}, None,
+                                 "copy_file_range:error=%s:when=%d" % (["EIO", "ENOSPC"][when % 2], when), False))
     def one(j):
         sc, drv, upd, cfg, env, inj, measure = j
         rid = "c12-%s-%s-%s-%d-%d-%s" % (sc["id"], drv, upd, cfg["block_size"], cfg["workers"], abs(hash((str(env), inj))) % 9999)
